@@ -516,7 +516,8 @@ func c09R3(c *Ctx, rule string) {
 		c.Undecided(rule, "responder calls / redirect calls in dispatchConnection", c.atFn(dc), fmt.Sprintf("%d responder calls, %d redirect calls", len(responders), len(webCalls)))
 		return
 	}
-	for _, r := range returnsOf(dc) {
+	for _, xp := range exitPointsOf(dc) {
+		r := xp.At // the return, or — for a return that only merges several ways out — the jump of one way
 		behind := false
 		for _, rc := range responders {
 			if instrDominates(rc, r) {
@@ -557,7 +558,7 @@ func c09R3(c *Ctx, rule string) {
 		closedOnly := !viaWeb && viaWebOrClose
 		// named exemption: GetSession error (peer holds valid credentials)
 		exempt := false
-		for _, at := range AtomsAt(r) {
+		for _, at := range xp.Atoms {
 			if at.Kind == "cmp" && at.Op == token.NEQ && strings.Contains(at.String(), "GetSession") {
 				exempt = true
 			}
@@ -570,6 +571,11 @@ func c09R3(c *Ctx, rule string) {
 		case exempt:
 			c.OK(rule, construct, c.at(r), "named exemption: GetSession failed for a peer that presented valid credentials (outside the property's peers)")
 		default:
+			if os.Getenv("CLOAKCHECK_DEBUG") != "" {
+				for _, at := range AtomsAt(r) {
+					fmt.Fprintln(os.Stderr, "C09.R3 debug atom:", at.String())
+				}
+			}
 			c.Bad(rule, construct, c.at(r), "a connection that was not accepted as Cloak leaves the dispatcher without being redirected: a prober sees a close instead of the web server")
 		}
 	}
